@@ -25,7 +25,7 @@ LEVEL_NOTE = "Trusted: the harness's stability-scale precondition; tolerance 1e-
 def budget(tier):
     if tier == "quick":
         return dict(max_examples=420, workers=6, time_s=170, min_cases=100)
-    return dict(max_examples=3000, workers=16, time_s=1200, min_cases=800)
+    return dict(max_examples=3000, workers=16, time_s=1200, min_cases=200)
 
 
 @st.composite
